@@ -729,6 +729,59 @@ fn quals_step(q: &mut Qualifiers, a: &[&str]) -> Result<String, String> {
             o.push(']');
             o
         },
+        "it" => {
+            // any calls on ONE iterator (`nbt3u12l`: next, next_back, nth(3), nth_back(12), len), then what is left in it
+            let mutable = arg(a, 1)? == "m";
+            let script: Vec<char> = arg(a, 2)?.chars().collect();
+            let mut ops: Vec<(char, usize)> = Vec::new();
+            let mut i = 0;
+            while i < script.len() {
+                let c = script[i];
+                i += 1;
+                let mut n = 0usize;
+                if c == 't' || c == 'u' {
+                    let st = i;
+                    while i < script.len() && script[i].is_ascii_digit() {
+                        n = n * 10 + script[i].to_digit(10).unwrap() as usize;
+                        i += 1;
+                    }
+                    if st == i {
+                        return Err("nth without a number".to_string());
+                    }
+                } else if !matches!(c, 'n' | 'b' | 'l') {
+                    return Err("bad iterator op".to_string());
+                }
+                ops.push((c, n));
+            }
+            // called on the library's iterator itself (an adaptor such as `map` would answer `nth` with repeated `next`)
+            macro_rules! run_it {
+                ($it:expr) => {{
+                    let mut it = $it;
+                    let mut outs: Vec<String> = Vec::new();
+                    for &(c, n) in &ops {
+                        let x = match c {
+                            'n' => Some(it.next()),
+                            'b' => Some(it.next_back()),
+                            't' => Some(it.nth(n)),
+                            'u' => Some(it.nth_back(n)),
+                            _ => None,
+                        };
+                        outs.push(match x {
+                            Some(Some((k, v))) => format!("{}={}", h(k.as_str()), h(v)),
+                            Some(None) => "~".to_string(),
+                            None => format!("#{}", it.len()),
+                        });
+                    }
+                    let rest: Vec<String> = it.map(|(k, v)| format!("{}={}", h(k.as_str()), h(v))).collect();
+                    format!("it[{}]/[{}]", outs.join(","), rest.join(","))
+                }};
+            }
+            if mutable {
+                run_it!(q.iter_mut())
+            } else {
+                run_it!(q.iter())
+            }
+        },
         "ends" => {
             // next() / next_back() alternately; the iterator's len() / size_hint() must count down with it
             let mut it = q.iter();
